@@ -243,6 +243,24 @@ def run(ctx):
 
     # ---- W1 / W3
     n = w1(ctx, TYPES)
+    # the tables of an index file sit at the absolute offsets their segment descriptors give: each table field is read
+    # after `seek_before = SeekFrom::Start(<its own descriptor>.offset ..)`
+    from .. import wire as _W
+
+    si_ = wm.items.by_path.get("sqpack::index::SqPackIndex")
+    if not si_:
+        ctx.fail_closed("W1", "sqpack::index::SqPackIndex not found")
+    else:
+        want_s = {"index_header": "sqpack_header.size", "entries": "index_header.file_descriptor.offset", "data_entries": "index_header.data_descriptor.offset", "folder_entries": "index_header.folder_descriptor.offset"}
+        n_sb = 0
+        for f_ in si_["fields"]:
+            if f_["name"] not in want_s:
+                continue
+            sb_ = [d_.text.replace(" ", "") for d_ in _W.directives(f_["attrs"]) if d_.name == "seek_before" and "r" in d_.side]
+            n_sb += 1
+            ok_ = len(sb_) == 1 and sb_[0].startswith("SeekFrom::Start(") and want_s[f_["name"]] in sb_[0] and not any(o_ in sb_[0] for o_ in ("-", "*", "/", ">>", "<<"))
+            ctx.ob("W1", f"seek|SqPackIndex.{f_['name']}", ok_, f"SqPackIndex.{f_['name']} is read after seek_before = {sb_}; must be SeekFrom::Start({want_s[f_['name']]})", si_["file"], si_["line"])
+        ctx.floor("W1", "table seeks of the index file", n_sb, 4)
     ctx.floor("W1", "SqPack index types (FileEntry counted per index type)", n, 7)
     idx = wm.items.by_path.get("sqpack::index::SqPackIndex")
     if not idx:
